@@ -558,6 +558,12 @@ class Program:
             return self.by_dp.get(term.j["callee_dp"])
         return None
 
+    def units(self):
+        """functions that are analysed on their own (everything except private higher-order helpers, which are spliced
+        into their callers by the unit views)"""
+        from .inline import higher_order
+        return [f for f in self.fns.values() if not higher_order(f)]
+
     def closure_fn(self, rv):
         """the body of the closure built by an `agg closure` rvalue"""
         return self.by_dp.get(rv.j.get("closure_dp")) or self.fns.get(rv.j.get("closure"))
